@@ -215,6 +215,7 @@ func (f *Frame) execIndexAddr(x *ssa.IndexAddr) {
 		f.regs[x] = Val{Typ: x.Type(), T: "1", P: pl, Prov: v.Prov, NF: v.NF}
 	case *types.Pointer: // pointer to array
 		at := ut.Elem().Underlying().(*types.Array)
+		f.ex.assume("(trig " + i.T + ")") // trigger term for index-quantified specifications
 		f.panicEdge(not(and("(<= 0 "+i.T+")", fmt.Sprintf("(< %s %d)", i.T, at.Len()))), "index_in_range", x.X.Name())
 		pl := f.placeOf(v, ut.Elem(), x.X.Name())
 		f.regs[x] = Val{Typ: x.Type(), T: "1", P: pl.extend(pathElem{isIdx: true, idx: i.T, cont: ut.Elem()}), Prov: v.Prov, NF: v.NF}
